@@ -289,7 +289,9 @@ struct Ctx {
     if (!t) { viol("M-proto: rule reported complete although its task has not called complete()", kdesc(k)); return; }
     t->accepted = true;
     Shadow& s = shadow[k];
-    bool changed = !s.has || t->comp.force || s.value != t->comp.value || s.interrupted;
+    // After an interruption the engine compares the new value with the last accepted value or, if the interrupted task had
+    // already delivered a completion, with that one: "unchanged" is certain only if the new value equals every possible base.
+    bool changed = !s.has || t->comp.force || s.value != t->comp.value || (s.interrupted && s.hasInterruptedValue && s.interruptedValue != t->comp.value);
     s.has = true; s.value = t->comp.value; s.sig = sigOf(k); s.builtAt = buildNo;
     if (changed) s.computedAt = buildNo;
     s.deps = t->issued;
